@@ -35,4 +35,17 @@ for pid in ids:
     p = subprocess.run(["./check", pid, "--tier", "quick"], cwd=V, stdout=subprocess.PIPE, stderr=subprocess.STDOUT, text=True)
     print("clean", pid, p.returncode, flush=True)
     res[pid]["clean_rc"] = p.returncode
-json.dump(res, open(os.path.join(seed, "check_result.json"), "w"), indent=1)
+crp = os.path.join(seed, "check_result.json")
+old = json.load(open(crp)) if os.path.exists(crp) else {}
+old.update(res)          # later runs of the same check (after strengthening) replace earlier ones
+json.dump(old, open(crp, "w"), indent=1)
+# fold everything confirmed so far into meta.json
+conf = meta.setdefault("confirmed_by_me", {})
+for k, f in (("demo_with_change_exit", "demo_with.exit"), ("demo_without_change_exit", "demo_without.exit")):
+    if os.path.exists(os.path.join(seed, f)):
+        conf[k] = int(open(os.path.join(seed, f)).read().strip())
+ft = os.path.join(seed, "fulltests.txt")
+if os.path.exists(ft):
+    conf["baseline_test_suite_with_change"] = open(ft).readline().strip()
+conf["checks_run"] = {k: {"violation": v["violation"], "failing_input_found": v["found_input"], "clean_tree_exit": v.get("clean_rc")} for k, v in old.items()}
+json.dump(meta, open(os.path.join(seed, "meta.json"), "w"), indent=1)
